@@ -19,7 +19,12 @@ pub fn run_mode(env: &mut Env, c04_mode: bool) -> Outcome {
         let mut ctx = ctxrc.borrow_mut();
         let cfg = gen_client_cfg(&mut ctx, c04_mode || ctx_unicode(env.case), crate::scen::nla_available());
         let selected = if cfg.nla && ctx.chance("select_hybrid", 3, 4) { 2 } else { 1 };
-        let params = ServerParams::generate(&mut ctx, selected);
+        let mut params = ServerParams::generate(&mut ctx, selected);
+        if cfg.check_cert {
+            // certificate checking on: the conforming server presents a certificate the client trusts
+            params.cert = *ctx.pick("trusted_cert", &[0usize, 1, 3]);
+            ctx.probe("certificate_checked");
+        }
         let net = gen_benign_net(&mut ctx);
         let packing = match ctx.choose("packing", 4) { 0 => Packing::OnePerRecord, 1 => Packing::Coalesce, 2 => Packing::Split, _ => Packing::Mixed };
         let second = ctx.chance("second_activation", 1, 3);
